@@ -31,6 +31,8 @@ func init() {
 			{ID: "C16.R6", Floor: 2, Doc: "bounded event buffer; ring refresh requested outside the per-frame loop", Run: c16r6},
 			{ID: "C16.R7", Floor: 1, Doc: "status events coalesced per address keep the last status", Run: c16r7},
 			{ID: "C16.R8", Floor: 2, Doc: "event handlers' frame switches do not panic on unexpected frames", Run: c16r8},
+			{ID: "C16.R9", Floor: 1, Doc: "the event batch handed to the handler goroutine does not share storage with the buffer that keeps collecting events", Run: ruleGoHandoff},
+			{ID: "C16.R10", Floor: 4, Doc: "published host/token snapshots are read-only for their readers (=C11.R6)", Run: ruleSharedSlices},
 		},
 	})
 }
